@@ -57,6 +57,39 @@ static void limit_protocol(int k, size_t flen, size_t plen, uint64_t declared_di
 	// 4. need+1 from the start: decodes like an unlimited run
 	lzma_stream t = LZMA_STREAM_INIT; reset_counters(); if (dinit(&t, k, need + 1) == LZMA_OK) { t.next_in = file; t.avail_in = flen; t.next_out = out2; t.avail_out = sizeof out2; r = dcode(&t);
 		if (r != LZMA_STREAM_END || t.total_out != plen || memcmp(out2, plain, plen)) FAILM("limit-need+1", "%s with limit need+1 returned %d", DN[k], r); lzma_end(&t); }
+	// 5. the limit is lowered after init: before any input (phase 0) or after the first byte (phase 1); whatever lzma_memlimit_set() accepts must be enforced and reported back
+	const uint64_t LOW = LZMA_MEMUSAGE_BASE;	// accepted by every decoder that holds nothing yet, below the need of every file here
+	for (int phase = 0; phase < 2; phase++) { lzma_stream u = LZMA_STREAM_INIT; reset_counters(); if (dinit(&u, k, UINT64_MAX) != LZMA_OK) continue;
+		u.next_in = file; u.avail_in = phase; u.next_out = out2; u.avail_out = sizeof out2; if (phase) { r = lzma_code(&u, LZMA_RUN); if (r != LZMA_OK) { lzma_end(&u); continue; } }
+		lzma_ret sr = lzma_memlimit_set(&u, LOW);
+		if (sr == LZMA_OK) { if (lzma_memlimit_get(&u) != LOW) FAILM("memlimit_get", "%s: lzma_memlimit_set(LZMA_MEMUSAGE_BASE) %s returned LZMA_OK but lzma_memlimit_get() says %llu", DN[k], phase ? "after the first byte" : "before any input", (unsigned long long)lzma_memlimit_get(&u));
+			u.avail_in = flen - (size_t)(u.next_in - file); r = dcode(&u); long long pk = atomic_load(&peak_b);
+			if (r != LZMA_MEMLIMIT_ERROR) FAILM("limit-not-enforced", "%s: limit lowered to LZMA_MEMUSAGE_BASE %s (accepted), decoding returned %d, peak requested %lld", DN[k], phase ? "after the first byte" : "before any input", r, pk);
+			else if (pk > (long long)LOW + (long long)LZMA_MEMUSAGE_BASE + 65536) FAILM("allocated-beyond-limit", "%s: %lld bytes requested although the limit was lowered to LZMA_MEMUSAGE_BASE %s", DN[k], pk, phase ? "after the first byte" : "before any input"); }
+		else if (sr != LZMA_MEMLIMIT_ERROR) FAILM("memlimit_set", "%s: lzma_memlimit_set(LZMA_MEMUSAGE_BASE) %s returned %d", DN[k], phase ? "after the first byte" : "before any input", sr);
+		lzma_end(&u); }
+}
+// big dictionary first, small dictionary later (two Blocks of one Stream, or the handle reused for a second file): what is still held must not exceed what lzma_memusage() reports
+static void part_shrink(void) {
+	static const unsigned PAIRS[][2] = { { 24, 8 }, { 24, 0 }, { 18, 2 }, { 30, 10 }, { 8, 24 } };	// LZMA2 dictionary codes (24 = 8 MiB, 8 = 64 KiB, 0 = 4 KiB)
+	size_t plen = 30;
+	for (unsigned pi = 0; pi < 5; pi++) for (int k = 0; k < D_N; k++) { if (k == D_ALONE || k == D_LZIP || k == D_MT) continue; if ((unit++ % nsh) != sh) continue;
+		// (a) two Blocks in one Stream
+		rb_out o; rb_init(&o, file, sizeof file); ref_block b[2] = { { .data = plain, .len = plen, .dict_byte = PAIRS[pi][0] }, { .data = plain, .len = plen, .dict_byte = PAIRS[pi][1] } }; ref_xz_stream(&o, b, 2, 1, NULL);
+		snprintf(desc, sizeof desc, "one Stream, Blocks with LZMA2 dictionary codes %u then %u", PAIRS[pi][0], PAIRS[pi][1]); H_CASE("c09 shrink %s %s", DN[k], desc); n_cases++;
+		lzma_stream s = LZMA_STREAM_INIT; reset_counters(); if (dinit(&s, k, UINT64_MAX) != LZMA_OK) continue; s.next_in = file; s.avail_in = o.len; s.next_out = out1; s.avail_out = sizeof out1; lzma_ret r = dcode(&s);
+		if (r != LZMA_STREAM_END) { FAILM("shrink", "%s returned %d", DN[k], r); lzma_end(&s); continue; }
+		uint64_t mu = lzma_memusage(&s); long long live = atomic_load(&live_b); n_nontrivial++;
+		if ((uint64_t)live > mu) FAILM("held-exceeds-memusage", "%s: %lld bytes still held at the end but lzma_memusage() reports %llu", DN[k], live, (unsigned long long)mu);
+		if (lzma_memlimit_set(&s, mu) != LZMA_OK) FAILM("memlimit_set", "%s: limit equal to the reported usage refused", DN[k]);
+		// (b) the same handle re-initialised for a file that only needs the small dictionary
+		rb_init(&o, file, sizeof file); ref_block c = { .data = plain, .len = plen, .dict_byte = PAIRS[pi][1] }; ref_xz_stream(&o, &c, 1, 1, NULL);
+		snprintf(desc, sizeof desc, "handle reused: file with dictionary code %u after one with %u", PAIRS[pi][1], PAIRS[pi][0]); H_CASE("c09 shrink %s %s", DN[k], desc); n_cases++;
+		if (dinit(&s, k, UINT64_MAX) != LZMA_OK) { lzma_end(&s); continue; } s.next_in = file; s.avail_in = o.len; s.next_out = out1; s.avail_out = sizeof out1; r = dcode(&s);
+		mu = lzma_memusage(&s); live = atomic_load(&live_b);
+		if (r != LZMA_STREAM_END) FAILM("shrink", "%s (reused) returned %d", DN[k], r);
+		else if ((uint64_t)live > mu) FAILM("held-exceeds-memusage", "%s: %lld bytes still held at the end but lzma_memusage() reports %llu", DN[k], live, (unsigned long long)mu);
+		lzma_end(&s); if (atomic_load(&live_n)) FAILM("leak", "%ld blocks live after lzma_end", atomic_load(&live_n)); }
 }
 static void part_limits(int thorough) {
 	size_t plen = 30;
@@ -166,7 +199,7 @@ static void part_mt(int thorough) {
 int main(int argc, char **argv) {
 	h_init(); if (argc < 5) return 2; int thorough = !strcmp(argv[2], "thorough"); sh = atoi(argv[3]); nsh = atoi(argv[4]);
 	for (size_t i = 0; i < sizeof plain; i++) plain[i] = "abcabcabd-xyz"[i % 13];
-	if (!strcmp(argv[1], "limits")) part_limits(thorough); else if (!strcmp(argv[1], "estimates")) part_estimates(thorough); else part_mt(thorough);
+	if (!strcmp(argv[1], "limits")) { part_limits(thorough); part_shrink(); } else if (!strcmp(argv[1], "estimates")) part_estimates(thorough); else part_mt(thorough);
 	printf("STAT evals=%ld distinct=%ld\n", n_cases, n_nontrivial);
 	if (sh == 0) printf("SAMPLE %s\n", h_case);
 	h_done(); return 0;
